@@ -289,6 +289,13 @@ pub fn generate(rng: &Rng, world: &World, tier: &str) -> C16 {
             };
             sets.push((l.to_string(), spec));
         }
+        // labels are arbitrary strings: a label with a path separator (a zipped results folder that
+        // contains an `old/` copy) must stay distinct from the top-level label of the same base name
+        if !sets.is_empty() && r.chance(1, 3) {
+            let base = r.pick(&sets).0.clone();
+            let prefix = *r.pick(&["old", "backup/v1", "x.bdd"]);
+            sets.push((format!("{prefix}/{base}"), SetSpec::Dnf(r.next_u64() % 1_000_000)));
+        }
         for _ in 0..r.below(7) {
             formulae.push(small_formula(&mut r, &props, world.k).render());
         }
@@ -452,6 +459,23 @@ pub fn read_entries(path: &str) -> Result<BTreeMap<String, Vec<u8>>, String> {
         }
     }
     Ok(out)
+}
+
+/// Byte ranges of the (compressed) entry data inside an archive. A bit flipped inside such a range
+/// is covered by the entry's CRC-32, so a reader can - and the zip layer does - detect it; a bit
+/// flipped elsewhere (names, sizes, offsets) is not covered by any checksum.
+pub fn data_regions(path: &str) -> Vec<(u64, u64)> {
+    let mut out = Vec::new();
+    if let Ok(f) = std::fs::File::open(path) {
+        if let Ok(mut z) = zip::ZipArchive::new(f) {
+            for i in 0..z.len() {
+                if let Ok(e) = z.by_index(i) {
+                    out.push((e.data_start(), e.data_start() + e.compressed_size()));
+                }
+            }
+        }
+    }
+    out
 }
 
 pub fn context_names(g: &SymbolicAsyncGraph) -> Vec<String> {
@@ -686,6 +710,8 @@ pub fn check(world: &World, sc: &C16, sandbox: &str) -> Report {
         Good,
         Suspect,
         Flipped,
+        /// one bit inside the CRC-protected data of an entry was flipped (names are intact)
+        FlippedData,
         /// a failed Save may have left the *previous* valid archive (other labels) in place
         Stale,
     }
@@ -787,13 +813,20 @@ pub fn check(world: &World, sc: &C16, sandbox: &str) -> Report {
                 rep.event(format!("truncate {keep}"));
             }
             Op::Flip { bit } => {
+                let regions = data_regions(&cx.path);
                 if let Ok(mut bytes) = std::fs::read(&cx.path) {
                     if !bytes.is_empty() {
                         let b = (*bit as usize) % (bytes.len() * 8);
                         bytes[b / 8] ^= 1 << (b % 8);
                         let _ = std::fs::write(&cx.path, &bytes);
                         rep.probe("damage_bit_flips", 1);
-                        disk = Disk::Flipped;
+                        let in_data = regions.iter().any(|(a, e)| (b / 8) as u64 >= *a && ((b / 8) as u64) < *e);
+                        if in_data && disk == Disk::Good {
+                            rep.probe("damage_bit_flips_in_entry_data", 1);
+                            disk = Disk::FlippedData;
+                        } else if disk != Disk::FlippedData || !in_data {
+                            disk = Disk::Flipped;
+                        }
                         sig ^= 0x99;
                     }
                 }
@@ -1014,6 +1047,7 @@ pub fn check(world: &World, sc: &C16, sandbox: &str) -> Report {
                     rep.probe("loads_of_suspect_archive", count);
                 } else {
                     let mut count = 0;
+                    let regions = data_regions(&cx.path);
                     for bit in (0..n * 8).step_by(*stride as usize) {
                         let mut b = good.clone();
                         b[(bit / 8) as usize] ^= 1 << (bit % 8);
@@ -1023,8 +1057,16 @@ pub fn check(world: &World, sc: &C16, sandbox: &str) -> Report {
                         if matches!(r, Outcome::Panic(_)) {
                             rep.probe("load_panics_on_damaged_archive", 1);
                         }
-                        // reach probe only (see Op::Load): no verdict on bit-flipped archives
                         rep.probe(if matches!(r, Outcome::Ok(_)) { "flipped_archive_loaded_ok" } else { "flipped_archive_rejected" }, 1);
+                        // a verdict only where a checksum covers the flipped bit (see Op::Load)
+                        if regions.iter().any(|(a, e)| bit / 8 >= *a && bit / 8 < *e) {
+                            rep.probe("damage_bit_flips_in_entry_data", 1);
+                            cx.judge_load(&r, false, true, &mut rep, &format!("op {oi} sweep: Load of archive with bit {bit} (inside CRC-protected entry data) flipped"));
+                            if rep.violation.is_some() {
+                                rep.pinned = Some(pinned(sc, vec![Op::Save { plan: String::new(), pre: Pre::Absent, hash_seed: 5 }, Op::Flip { bit }, Op::Load { plan: String::new(), hash_seed: 6 }]));
+                                break;
+                            }
+                        }
                     }
                     rep.probe("damage_bit_flips", count);
                     rep.probe("loads_of_suspect_archive", count);
